@@ -1,6 +1,6 @@
 (** * C14 — the tables regenerated from the current sources satisfy [tables_ok] (T-gen obligation).
     Fails to compile when the shape of Rxn_copy / Rxn_copies / delete_entities / copy_entities /
-    read_copy / list_components in /repo no longer matches the model. *)
+    read_copy / list_components / saver / do_mixes in /repo no longer matches the model. *)
 From Coq Require Import ZArith List Bool.
 From IPV.C14 Require Import Store Tie.
 From IPV.Gen Require Import Gen_C14.
@@ -25,11 +25,16 @@ Proof. vm_compute. reflexivity. Qed.
 Lemma list_components_all_kinds : components_ok (g_components tables) = true.
 Proof. vm_compute. reflexivity. Qed.
 
+Lemma saver_pairs_diagonal : saver_table_ok (g_saver tables) = true.
+Proof. vm_compute. reflexivity. Qed.
+Lemma do_mixes_pairs_diagonal : mixes_ok (g_mixes tables) = true.
+Proof. vm_compute. reflexivity. Qed.
+
 Lemma tables_ok_now : tables_ok tables = true.
 Proof.
   unfold tables_ok.
   rewrite rxn_copy_shape_ok, rxn_copies_shape_ok, delete_pairs_diagonal, delete_request_reset,
     copy_pairs_diagonal, copy_request_reset, read_copy_keywords_diagonal, read_copy_cell_all_kinds,
-    list_components_all_kinds.
+    list_components_all_kinds, saver_pairs_diagonal, do_mixes_pairs_diagonal.
   reflexivity.
 Qed.
